@@ -246,8 +246,7 @@ def check(prop, tier):
 def judge(prop, out, traces, canary, verdicts, st):
     byid = {t["id"]: t for t in traces}
     cv = accept.final_verdict(verdicts[canary["id"]])
-    if cv["v"] != "MISMATCH":
-        raise MachineryError("canary (corrupted observation) was not rejected: %s" % cv)
+    canary_bad = None if cv["v"] == "MISMATCH" else "canary (corrupted observation) was not rejected: %s" % cv
     if st["invariant_violations"]:
         iv = st["invariant_violations"][0]
         out.violation("invariant %s is false on a trace recorded from the implementation" % iv["name"],
@@ -283,6 +282,8 @@ def judge(prop, out, traces, canary, verdicts, st):
                 seen_all[b] = seen_all.get(b, 0) + 1
             if set(v.get("seen", [])) & KEY_BRANCHES[prop]:
                 keys.add(trace_key(t))
+    if canary_bad and not out.violations:     # (corrupting an observation that is itself wrong can make it right)
+        raise MachineryError(canary_bad)
     out.cov["evaluations"] = events
     out.cov["distinct_nontrivial"] = len(keys)
     out.cov["rule"] = ("a trace is one machine shape plus one history of calls/clock steps; it counts as non-trivial "
